@@ -120,10 +120,20 @@ def make_index(spec, n):
         if a == b:
             a, b = 0, n
         step = spec[3]
-        sl = slice(a, b, step)
+        if step is not None and step < 0:
+            # reversed: from b-1 down to a
+            sl = slice(b - 1, a - 1 if a > 0 else None, step)
+        else:
+            sl = slice(a, b, step)
         if len(range(*sl.indices(n))) == 0:
             sl = slice(None, None, None)
         return sl, 'slice_step' if step not in (None, 1) else 'slice'
+    if kind == 'perm':
+        # full-length re-ordering
+        order = sorted(range(n), key=lambda i: (spec[1][i % len(spec[1])], i))
+        if spec[2]:
+            order = order[::-1]
+        return order, 'int_list'
     if kind == 'list':
         return [int(i % n) for i in spec[1]], 'int_list'
     if kind == 'array':
@@ -272,6 +282,23 @@ def check_history(case, ctx):
             idx2, form2 = make_index(case['index2'], m)
             child = child[idx2]
             ctx.event('index_of_index')
+        # get_label(s) / get_id(s) on the (possibly re-ordered) child
+        if idx2 is None and case.get('via2') and not child.isscalar:
+            labs = np.atleast_1d(child.labels if case['kind'] == 'cat' else child.ids)
+            if len(set(int(v) for v in labs)) == len(labs):
+                js = [int(i) % len(labs) for i in case['via2']]
+                want = [int(labs[j]) for j in js]
+                if len(js) == 1:
+                    child = (child.get_label(want[0]) if case['kind'] == 'cat'
+                             else child.get_id(want[0]))
+                    idx2 = js[0]
+                else:
+                    child = (child.get_labels(want) if case['kind'] == 'cat'
+                             else child.get_ids(want))
+                    idx2 = js
+                ctx.event('get_on_child')
+                if list(labs) != sorted(labs):
+                    ctx.event('get_on_reordered_child')
         scalar_child = child.isscalar
         if scalar_child:
             ctx.event('scalar_child')
@@ -396,6 +423,8 @@ index_specs = st.one_of(
               st.sampled_from([None, 1, 2, -1, 3])),
     st.tuples(st.just('list'), st.lists(st.integers(0, 20), min_size=1,
                                         max_size=5)),
+    st.tuples(st.just('perm'), st.lists(st.integers(0, 9), min_size=1,
+                                        max_size=8), st.booleans()),
     st.tuples(st.just('array'), st.lists(st.integers(0, 20), min_size=1,
                                          max_size=5)),
     st.tuples(st.just('bool'), st.lists(st.booleans(), min_size=1,
@@ -434,6 +463,8 @@ def history_cases(draw):
         'index': list(draw(index_specs)),
         'index2': draw(st.one_of(st.none(), st.none(), index_specs.map(list))),
         'via': draw(st.sampled_from(['getitem', 'getitem', 'get', 'gets'])),
+        'via2': draw(st.one_of(st.none(), st.lists(st.integers(0, 20), min_size=1,
+                                                   max_size=3, unique=True))),
         'ops': [list(o) for o in draw(st.lists(
             st.tuples(st.sampled_from(['child', 'parent']),
                       st.sampled_from(['add', 'rename', 'remove', 'circ',
